@@ -278,6 +278,9 @@ func (c16) Gen(rng *rand.Rand, tier string, idx int) Case {
 				c.Ops = append(c.Ops, append([]string{"ups", strconv.Itoa(pid)}, pick()...))
 			case k < 4:
 				c.Ops = append(c.Ops, append([]string{"del"}, pick()...))
+			case k == 4 && rng.Intn(3) == 0:
+				// a table write that is rejected (no such table): an error, and nothing changes for the rows that follow
+				c.Ops = append(c.Ops, append([]string{"badups"}, pick()...))
 			default:
 				id++
 				c.Ops = append(c.Ops, append([]string{"emit", strconv.Itoa(id)}, pick()...))
@@ -462,6 +465,12 @@ func c16SQL(c Case, arity int) [][][]string {
 		case "del":
 			src.Delete(c16Key(op[1:]))
 			out = append(out, nil)
+		case "badups":
+			if err := s.UpsertTable("nosuch", c16TableRow(-3, op[1:])); err != nil {
+				out = append(out, [][]string{{"rejected"}})
+			} else {
+				out = append(out, [][]string{{"accepted"}})
+			}
 		case "emit":
 			id, _ := strconv.Atoi(op[1])
 			row := c16Row("k", op[2:])
